@@ -320,6 +320,14 @@ def obligations(tier, rng):
         from .c09 import inline
         h = hor(inline(T(main), {n: T(d) for n, d in defs}))
         out.append(ob('C03', 'delay', 'named/%s/%s' % (';'.join('%s=%s' % (n, text(d)) for n, d in defs), text(main)), f=main, N=h + 3, defs=defs))
+    from .. import pool
+    for g in pool.FUTURE:
+        period, unit = refsem.cfg(g)
+        h = hor(g[2])
+        out.append(ob('C03', 'delay', 'units/pool/%s/p=%s/unit=%s' % (g[1], period, unit), f=g[2], N=h + 3, txt=g[1], period=list(period) if period else None, unit=unit))
+    for g in pool.PAST:
+        period, unit = refsem.cfg(g)
+        out.append(ob('C03', 'nofuture', 'nofuture/pool/%s/p=%s/unit=%s' % (g[1], period, unit), f=g[2], N=6, txt=g[1], period=list(period) if period else None, unit=unit))
     for f, txt, period, unit in NOFUT_CASES:
         out.append(ob('C03', 'nofuture', 'nofuture/%s/p=%s' % (txt, period), f=f, N=6, txt=txt, period=period, unit=unit))
     for f in [('eventually', X), ('always', X), ('until', X, Y), ('and', ('always', X), Y), ('once', ('eventually', X)),
